@@ -770,7 +770,7 @@ def store(ins,fmap,nbytes,src=None):
         return
     if ins.mode == "Circular":
         addr = fmap(ins.operands[0])
-        off = ins.operands[2].signextend(addr.size)
+        off = ins.operands[1].signextend(addr.size)
         _Abp1 = fmap(A[ins.b+1])
         index = _Abp1[0:16].zeroextend(addr.size)
         length = _Abp1[16:32].zeroextend(addr.size)
